@@ -37,6 +37,11 @@ CHECKS = {
          "Histories mix valid updates of every kind (MessagesCreated with new / known / known-only messages and ignored unknown mailboxes, MessageFlagsUpdated, MessageMailboxesUpdated, MessageDeleted, MessageUpdated with same bytes / new bytes / AllowCreate, MessageIDChanged, MailboxCreated/Deleted/Updated, Noop), 16 kinds of invalid ones (unknown IDs, protected recovery mailbox, taken names), restatements of the current state, duplicate deliveries and the remote echoes of client commands (APPEND, STORE, COPY, MOVE, EXPUNGE, CREATE). Every update must be acknowledged (a second acknowledgement panics and is recorded), valid ones with success; after each step every mailbox seen by a fresh session equals the remote (membership, flags, bytes), untouched messages keep their UIDs and LIST equals the remote names; invalid updates, restatements and echoes leave UIDs/UIDNEXT/flags/bytes unchanged and a selected observer's NOOP silent. Bursts from 2-6 goroutines check one acknowledgement each and convergence.",
          "MailboxIDChanged is only exercised with unknown IDs (a connector cannot learn internal mailbox IDs). Echoes of intermediate states of multi-call commands are not restatements and are not delivered. Watchdog expiry on an acknowledgement is inconclusive, not a violation, for valid updates.",
          "DESIGN.md §4 C06"),
+ "C07": ("exploration",
+         "fault enumeration with process kills: a server child process with failpoints in every SQL step, around COMMIT, after the state/user commit and inside the store's Set, plus a store wrapper; reference run per operation, then one trial per (operation, point, k-th hit, crash|error), restart and full observation incl. the SQLite index",
+         "A base state is copied for every trial. 23 operations (APPEND, COPY, MOVE, STORE variants, EXPUNGE, UID EXPUNGE, CLOSE, deep CREATE, DELETE, RENAME, RENAME INBOX, SUBSCRIBE/UNSUBSCRIBE, connector delivery of new and known messages, connector deletion) are first run undisturbed to count how often each failpoint and store call is reached. Trials kill the server process (SIGKILL from inside) or inject an error at the k-th hit of a point, kill or close survivors, sometimes kill again during the next start-up, and for operations that leave work to the start-up (messages marked for deletion) enumerate the start-up's own points. After the final restart: LIST, LSUB, UIDVALIDITY, UIDNEXT, UIDs, flags and bytes of every mailbox equal the state before or after the operation (after, when it was answered OK), every message is served with the bytes handed in, the store holds exactly one file per message row and no row is still marked for deletion.",
+         "Process death is SIGKILL: what the kernel accepted survives (power loss / fsync ordering are out of reach). Quick samples 3 hit indices per point, thorough takes all. The harness remote lives in the server process and starts empty after a restart.",
+         "DESIGN.md §4 C07"),
  "C08": ("exploration",
          "reference-model monitor: every db.Transaction/db.ReadOnly method called directly on the SQLite client (verif-tagged constructor), each result and a full getter dump compared with an in-memory relational model; aborted transactions; argument-length table around the batching limit",
          "Drives the real SQLite client with PRNG sequences over all ~70 interface methods (incl. the ones no IMAP script reaches), compares every return value and, after every write transaction, a dump of the whole database through its getters with a small relational model; transactions aborted at PRNG-chosen points must leave no trace; every list-taking method is called with 0..2500 arguments. Held on the sequences explored.",
